@@ -25,6 +25,9 @@ type EntryContext struct {
 	startTime uint64
 	// the rt of this transaction
 	rt uint64
+	// skipCompletion is set when an internal panic passed the request before the
+	// statistic slots ran; the completion is then not reported to them either.
+	skipCompletion bool
 
 	Resource *ResourceWrapper
 	StatNode StatNode
@@ -120,6 +123,7 @@ func (ctx *EntryContext) Reset() {
 	ctx.err = nil
 	ctx.startTime = 0
 	ctx.rt = 0
+	ctx.skipCompletion = false
 	ctx.Resource = nil
 	ctx.StatNode = nil
 	ctx.Input.reset()
